@@ -231,6 +231,8 @@ def remove_SplitSliceRead(op, arch):
             consumer is not None
             and consumer.run_on_npu
             and consumer.type not in memory_only_ops
+            # a memory copy (DMA) moves whole tensors, it cannot read a slice
+            and consumer.type != Op.Memcpy
             and consumer.type != Op.Mul
             and consumer.original_type != Op.Transpose
             and same_shape_in_consumer(consumer)
